@@ -1,4 +1,15 @@
 ----------------------------- MODULE FindingsC10 -----------------------------
+(* Finding classes for C10.                                                                                 *)
+(* F-C10-9: a recursive schema whose recursive property has a default (Node.child: {allOf: [{$ref: Node}],  *)
+(*   default: {}}): a request body that reaches the schema ("node": {}) has the default installed, the       *)
+(*   installed value is visited, lacks its own `child`, gets the default installed ... without end: fatal     *)
+(*   stack overflow in visitJSONObject (the process dies; the runner reports "crash").  The document passes   *)
+(*   document validation.                                                                                    *)
 EXTENDS Sequences, FiniteSets
-Class(line, bad) == "none"
+Class(line, bad) ==
+   IF bad = {"returns_normally"} /\ "recursive_schema_default" \in {line.c.feats[i] : i \in DOMAIN line.c.feats}
+      /\ "validate_request" \in DOMAIN line.obs /\ line.obs["validate_request"] = "crash"
+      /\ \A s \in DOMAIN line.obs : line.obs[s] \notin {"panic", "hang"}
+   THEN "recursive_default_injection_overflows"
+   ELSE "none"
 =============================================================================
